@@ -275,6 +275,19 @@ theorem encodeAt_eq_encodeElem {ie : IE} {v : Value} {b : Bytes} (h : encodeElem
     encodeAt ie v (pre ++ rest) pre.length = some (pre ++ b ++ rest.drop b.length) :=
   encodeAt_of_encodeElem h pre rest hr
 
+/-- the exact model of `GetBuffer` satisfies the whole-record predicate the implementation's `recbuf` /
+    `recbufx` observations are judged by: length bookkeeping for EVERY element list (ill-typed values and odd
+    declared lengths included), the specified bytes wherever the specification encoder accepts the record -/
+theorem model_holdsRecBuf (es : List Elem) :
+    holdsRecBuf es (.buf (recordLength es) (recordBuf es)) = true := by
+  have hl := recordBuf_length es
+  cases h : encodeRecord es with
+  | none => simp [holdsRecBuf, h, hl]
+  | some want =>
+    have he := recordBuf_eq_encodeRecord es want h
+    have hw : want.length = recordLength es := by rw [← he]; exact hl
+    simp [holdsRecBuf, h, he, hw]
+
 def ieMac : IE := ⟨"sourceMacAddress", 56, .macAddress, 0, 6⟩
 
 def rec3 : List Elem :=
